@@ -25,9 +25,11 @@ use std::task::{Context, Poll, RawWaker, RawWakerVTable, Waker};
 use std::time::Duration;
 
 mod adaptive;
+mod breaker;
 mod budget;
 mod coalesce;
 mod bulkhead;
+mod cache;
 mod ratelimiter;
 mod roundrobin;
 
@@ -261,6 +263,8 @@ fn main() {
     let scenario: fn(u64, &tokio::runtime::Runtime) = match args[1].as_str() {
         "bulkhead" => bulkhead::run,
         "budget" => budget::run,
+        "cache" => cache::run,
+        "breaker" => breaker::run,
         "coalesce" => coalesce::run,
         "adaptive" => adaptive::run,
         "ratelimiter" => ratelimiter::run,
